@@ -5,13 +5,15 @@
 (* cursor     : round-robin cursor per ready-set key (reset when the server list changes)                      *)
 (* inflight   : requests being proxied: [r, e]                                                                  *)
 (* L1 follows ClusterInfo.syncEndpoints / EnsureGatewayHealthCheck / endpointPickStrategy.Pop / the dispatcher. *)
-EXTENDS Naturals, Sequences, FiniteSets, TLC
+EXTENDS Naturals, Sequences, FiniteSets, TLC, Json
 
 CONSTANTS Eps, Subset, MaxSteps          \* Subset: the explicit upstream subset of policy "sub" (policy "all" uses every endpoint)
-VARIABLES servers, healthy, cursor, inflight, probed, hist
-vars == <<servers, healthy, cursor, inflight, probed, hist>>
+VARIABLES servers, healthy, cursor, inflight, probed, hist,
+          matched     \* requests that have matched their policy (ClusterInfo.MatchAttributes) but not yet picked an endpoint (Pop):
+                      \* the dispatcher does flow control in between, so the server list can change between the two
+vars == <<servers, healthy, cursor, inflight, probed, hist, matched>>
 
-Init == /\ servers = [e \in Eps |-> "gone"] /\ healthy = [e \in Eps |-> FALSE] /\ cursor = 0 /\ inflight = {} /\ probed = {} /\ hist = <<>>
+Init == /\ servers = [e \in Eps |-> "gone"] /\ healthy = [e \in Eps |-> FALSE] /\ cursor = 0 /\ inflight = {} /\ probed = {} /\ hist = <<>> /\ matched = <<>>
 H(x) == hist' = Append(hist, x)
 Ready(e) == servers[e] = "on" /\ healthy[e]
 Cand(p) == IF p = "sub" THEN {e \in Subset : Ready(e)} ELSE {e \in Eps : Ready(e)}
@@ -22,27 +24,48 @@ Apply(new) == /\ new # servers
               /\ healthy' = [e \in Eps |-> IF servers[e] = "gone" \/ new[e] = "gone" THEN FALSE ELSE healthy[e]]
               /\ inflight' = {x \in inflight : new[x.e] # "gone"}                   \* removal cuts the requests in flight to it
               /\ cursor' = IF {e \in Eps : new[e] # "gone"} # {e \in Eps : servers[e] # "gone"} THEN 0 ELSE cursor
-              /\ UNCHANGED probed /\ H([k |-> "apply", servers |-> new, e |-> "", ok |-> FALSE, p |-> ""])
+              /\ UNCHANGED <<probed, matched>> /\ H([k |-> "apply", servers |-> new, e |-> "", ok |-> FALSE, p |-> ""])
 \* a health probe: only enabled endpoints of the list are probed
 Probe(e, ok) == /\ servers[e] = "on"
                 /\ healthy' = [healthy EXCEPT ![e] = ok] /\ probed' = probed \cup {e}
-                /\ UNCHANGED <<servers, cursor, inflight>> /\ H([k |-> "probe", servers |-> servers, e |-> e, ok |-> ok, p |-> ""])
+                /\ UNCHANGED <<servers, cursor, inflight, matched>> /\ H([k |-> "probe", servers |-> servers, e |-> e, ok |-> ok, p |-> ""])
 \* a request under policy p: forwarded to the next ready endpoint of the policy in round-robin order, or answered 503
 Request(p, long) ==
   /\ IF Cand(p) = {} THEN UNCHANGED <<cursor, inflight>>
      ELSE /\ cursor' = cursor + 1
           /\ \E e \in Cand(p) : inflight' = IF long THEN inflight \cup {[r |-> Len(hist) + 1, e |-> e]} ELSE inflight
-  /\ UNCHANGED <<servers, healthy, probed>> /\ H([k |-> IF long THEN "longreq" ELSE "req", servers |-> servers, e |-> "", ok |-> FALSE, p |-> p])
+  /\ UNCHANGED <<servers, healthy, probed, matched>> /\ H([k |-> IF long THEN "longreq" ELSE "req", servers |-> servers, e |-> "", ok |-> FALSE, p |-> p])
+\* the two halves of a request as the dispatcher performs them: the picker remembers the policy (its subset, by NAME);
+\* the endpoint is looked up in the CURRENT server list when it is picked
+Match(p) == /\ Len(matched) < 2 /\ matched' = Append(matched, p)
+            /\ UNCHANGED <<servers, healthy, cursor, inflight, probed>> /\ H([k |-> "match", servers |-> servers, e |-> "", ok |-> FALSE, p |-> p])
+Pop == /\ matched # <<>> /\ matched' = Tail(matched)
+       /\ cursor' = IF Cand(Head(matched)) = {} THEN cursor ELSE cursor + 1
+       /\ UNCHANGED <<servers, healthy, inflight, probed>> /\ H([k |-> "pop", servers |-> servers, e |-> "", ok |-> FALSE, p |-> Head(matched)])
 Next == /\ Len(hist) < MaxSteps
         /\ \/ \E new \in [Eps -> {"on", "off", "gone"}] : Apply(new)
            \/ \E e \in Eps, ok \in BOOLEAN : Probe(e, ok)
            \/ \E p \in {"sub", "all"}, long \in BOOLEAN : Request(p, long)
+           \/ \E p \in {"sub", "all"} : Match(p)
+           \/ Pop
 Spec == Init /\ [][Next]_vars
-View == <<servers, healthy, inflight>>
+View == <<servers, healthy, inflight, matched>>
 
 \* design invariants
 NoTrafficToRemoved == \A x \in inflight : servers[x.e] # "gone"
 OnlyListedHealthy == \A e \in Eps : healthy[e] => servers[e] # "gone"
+
+\* directed family (EndpointsMP.cfg): everything ready, two requests match (subset policy, all-endpoints policy), ANY new version of
+\* the server list is applied, then both pick
+AllOn == [e \in Eps |-> "on"]
+MPInit == /\ servers = AllOn /\ healthy = [e \in Eps |-> TRUE] /\ cursor = 0 /\ inflight = {} /\ probed = Eps /\ matched = <<>>
+          /\ hist = <<[k |-> "apply", servers |-> AllOn, e |-> "", ok |-> FALSE, p |-> ""]>>
+MPNext == \/ Len(hist) = 1 /\ Match("sub")
+          \/ Len(hist) = 2 /\ Match("all")
+          \/ Len(hist) = 3 /\ \E new \in [Eps -> {"on", "off", "gone"}] : Apply(new)
+          \/ Len(hist) \in {4, 5} /\ Pop
+MPSpec == MPInit /\ [][MPNext]_vars
+MPEmit == Len(hist) = 6 => PrintT(<<"HIST", ToJson(hist)>>)
 
 (* ---------------- L0 operators used by the trace specification ---------------- *)
 \* even spread (C14): over N consecutive picks among k endpoints every endpoint is chosen floor(N/k) or ceil(N/k) times
